@@ -1,7 +1,7 @@
 (* C08: composite statements used by Properties/C08.v and the refutation witnesses. *)
 From V Require Import Base.Bits Gen.WireOps Gen.Prims Spec.C08 Model.StructLogic.
 From V Require Export Proofs.C08.Prims Proofs.C08.Gates Proofs.C08.Minterm Proofs.C08.Mux Proofs.C08.Select
-  Proofs.C08.Compare Proofs.C08.Concat.
+  Proofs.C08.Compare Proofs.C08.Concat Proofs.C08.Mixed.
 
 (* under one-hot selects the one-hot mux returns exactly the selected input *)
 Lemma OneHotMux_selected wi wr sels ins k : 0 <= wi -> 0 <= wr -> length sels = length ins -> (k < length sels)%nat ->
